@@ -45,12 +45,12 @@ Proof.
 Qed.
 
 (* whatever the cache held before (a stale or forged entry under the same id included) *)
-Lemma import_overwrites (ft : bool) (c : cache) claim io sid e cmds :
+Lemma import_overwrites (ft : bool) (c : cstate) claim io sid e cmds :
   (if ft then import_ft claim io else import_claim claim io) = Ok (sid, e, cmds) ->
-  import_into ft c claim io = (cache_store e c, Ok (sid, e, cmds))
-  /\ cache_lookup sid (fst (import_into ft c claim io)) = Some e.
+  import_into ft c claim io = (cstate_file e cmds c, Ok (sid, e, cmds))
+  /\ cache_lookup sid (cs_entries (fst (import_into ft c claim io))) = Some e.
 Proof.
-  intro H. unfold import_into. rewrite H. split; [reflexivity|]. cbn [fst].
+  intro H. unfold import_into. rewrite H. split; [reflexivity|]. cbn [fst cstate_file cs_entries].
   assert (e_id e = sid) as <-.
   { destruct ft; [eapply import_ft_id|eapply import_claim_id]; exact H. }
   apply cache_lookup_store.
@@ -58,9 +58,9 @@ Qed.
 
 Lemma mint_overwrites c o secret now m :
   mint o secret now = Ok m ->
-  cache_lookup (m_sid m) (fst (mint_into c o secret now)) = Some (m_entry m).
+  cache_lookup (m_sid m) (cs_entries (fst (mint_into c o secret now))) = Some (m_entry m).
 Proof.
-  intro H. unfold mint_into. rewrite H. cbn [fst].
+  intro H. unfold mint_into. rewrite H. cbn [fst cstate_file cs_entries].
   destruct (mint_inv _ _ _ _ H) as (info & e & cmds & _ & Hr & -> & _). cbn [m_sid m_entry].
   destruct (register_inv _ _ _ _ _ _ _ _ _ _ _ Hr) as (p & _ & _ & _ & -> & _).
   apply (cache_lookup_store (registered _ _ _ _ _ _ _)).
@@ -70,7 +70,7 @@ Qed.
    the entry filed under the session id agrees with the minter's *)
 Lemma same_session_any_cache o secret now m io c :
   secret_ok secret -> mint o secret now = Ok m ->
-  exists e, cache_lookup (m_sid m) (fst (import_into false c (m_claim m) io)) = Some e
+  exists e, cache_lookup (m_sid m) (cs_entries (fst (import_into false c (m_claim m) io))) = Some e
     /\ e_key e = e_key (m_entry m) /\ e_proto e = e_proto (m_entry m)
     /\ (forall n, n <> A_User -> plookup n (e_policy e) = plookup n (e_policy (m_entry m)))
     /\ (io_duration_ns io = mo_lifetime_ns o -> e_expiry e = e_expiry (m_entry m))
@@ -82,4 +82,26 @@ Proof.
   exists e. split.
   - apply (import_overwrites false c _ _ _ _ _ Hi).
   - repeat split; assumption.
+Qed.
+
+(* the command map after (re)filing an id: exactly the new mappings point at the id; mappings of
+   other ids survive unless the new import claims the same {tag,addr,<cmd>} key *)
+Lemma cmds_after_file e cmds s k :
+  In (k, e_id e) (cs_cmds (cstate_file e cmds s)) <-> In k cmds.
+Proof.
+  unfold cstate_file. cbn [cs_cmds]. rewrite in_app_iff, in_map_iff, filter_In. split.
+  - intros [[k' [E Hin]]|[_ H]].
+    + inversion E; subst. exact Hin.
+    + cbn [snd] in H. rewrite bytes_eqb_refl in H. discriminate.
+  - intro H. left. exists k. split; [reflexivity|exact H].
+Qed.
+
+Lemma other_cmds_survive e cmds s k id :
+  id <> e_id e -> existsb (bytes_eqb k) cmds = false ->
+  (In (k, id) (cs_cmds (cstate_file e cmds s)) <-> In (k, id) (cs_cmds s)).
+Proof.
+  intros Hid Hk. unfold cstate_file. cbn [cs_cmds]. rewrite in_app_iff, in_map_iff, filter_In. split.
+  - intros [[k' [E _]]|[H _]]; [inversion E; subst; congruence|exact H].
+  - intro H. right. split; [exact H|]. cbn [fst snd]. rewrite Hk.
+    rewrite (bytes_eqb_neq id (e_id e)) by exact Hid. reflexivity.
 Qed.
